@@ -704,10 +704,20 @@ func clientHealth(w *World) {
 			continue // the state did not last long enough to demand the message
 		}
 		found := false
-		for _, e := range trace {
+		var last *ev
+		for i := range trace {
+			e := &trace[i]
 			if e.reg == c.want && e.at >= c.at && e.at <= c.at+slack {
 				found = true
 			}
+			if e.at <= c.at+slack {
+				last = e
+			}
+		}
+		// (a state too short to demand its message may have gone unanswered: then the client's last word already
+		// is what this change asks for and nothing more is owed)
+		if !found && last != nil && last.reg == c.want {
+			found = true
 		}
 		if !found {
 			if c.want {
